@@ -177,6 +177,41 @@ def _exact_rank_info(aff):
     return True, False
 
 
+def _has_inverse(m):
+    """exactly invertible AffineTransform with numeric entries of moderate dynamic range, or a general
+    CoordinateMap carrying an inverse function"""
+    from nipy.core.reference.coordinate_map import AffineTransform
+    # floating-point coordinates only: whether an integer-typed map keeps an (integer) inverse is decided by
+    # `inverse(preserve_dtype=True)`, i.e. by whether the exact inverse happens to be integral
+    if m.function_domain.coord_dtype.kind != "f" or m.function_range.coord_dtype.kind != "f":
+        return False
+    if isinstance(m, AffineTransform):
+        a = np.asarray(m.affine)
+        if a.dtype == object or a.dtype.kind != "f":
+            return False
+        sq, sing = _exact_rank_info(a)
+        if not sq or sing:
+            return False
+        try:
+            return bool(np.linalg.cond(a.astype(float)) < 1e9)
+        except Exception:
+            return False
+    return getattr(m, "inverse_function", None) is not None
+
+
+def _offers_inverse(m):
+    from nipy.core.reference.coordinate_map import AffineTransform
+    if isinstance(m, AffineTransform):
+        a = np.asarray(m.affine)
+        if a.dtype == object or a.dtype.kind not in "fiu":
+            return True          # symbolic / exotic dtypes: not judged here
+        try:
+            return m.inverse() is not None
+        except Exception:
+            return False
+    return getattr(m, "inverse_function", None) is not None
+
+
 # ----------------------------------------------------------------------
 # real-code side
 # ----------------------------------------------------------------------
@@ -347,6 +382,10 @@ def _clause(pre, op, post, pts, general):
                 return f"{k}: the composed map evaluated at {x[0].tolist()} differs from applying the maps in turn"
             if post.function_domain != seq[0].function_domain or post.function_range != seq[-1].function_range:
                 return f"{k}: composed map does not go from the first domain to the last range"
+            # a composition of invertible maps is invertible: the result must still offer its inverse
+            if all(_has_inverse(m) for m in seq) and not _offers_inverse(post):
+                return (f"{k}: every composed map is invertible (exactly non-singular square affines / maps with an "
+                        f"inverse function) but the composition offers no inverse")
             return None
         if k in ("prod_r", "prod_l"):
             B = _real_map(op["map"])
@@ -562,6 +601,11 @@ def _execute(prog):
             if general:
                 obs["inv"] = "skip" if cur.inverse_function is not None else None
         line_pts = f"{pk} {len(pts)} {n} " + " ".join(fr(_exact(v)) for v in x.ravel())
+        bot = prog["init"]["mat"][-1]
+        if general and not (all(str(v) == "0" for v in bot[:-1]) and str(bot[-1]) == "1"):
+            # bottom row merely close to [0,..,0,1] (accepted by the constructor's allclose): such a matrix is not an
+            # affine map in the property's sense; only acceptance and evaluation are compared, not the inverse
+            obs.pop("inv", None)
     else:
         line_pts = f"{pk} 0 0"
     line = f"{head} {len(oplines)} {' '.join(oplines)} {line_pts}".replace("  ", " ").rstrip()
@@ -611,6 +655,11 @@ def _rand_mat(rng, kind, nout, nin, invertible=False):
         U = [[Fraction(1) if i == j else (Fraction(rng.choice([-2, -1, 0, 0, 1])) if j > i else Fraction(0))
               for j in range(n)] for i in range(n)]
         dch = [1, -1, 1, -1] if kind == "int" else [1, -1, 2, Fraction(1, 2), -2, 4]
+        if kind == "float" and rng.random() < 0.25:
+            # small (or large) scale factors: sub-millimetre voxels in metres, ...; the determinant is tiny (huge)
+            # although the matrix is as well conditioned as before up to the ratio of the scales
+            dch = [Fraction(1, 64), Fraction(-1, 128), Fraction(1, 32), Fraction(1, 1024)] if rng.random() < 0.7 \
+                else [64, -128, 1024]
         if kind == "frac":
             dch = [1, -1, Fraction(1, 3), 3, Fraction(2, 3)]
         D = [Fraction(rng.choice(dch)) for _ in range(n)]
